@@ -7,8 +7,11 @@
           specification talks about - raw value and comma-split members -, body length and hash) and what the application's
           handler saw (how often it ran, method, body length and hash)                              -> Exchange(r)
    end  : after the last exchange the connection was closed by the server (0) or answered one more request (1)
+   xchg and end carry ms, the age of the connection (wall time since just before connect()) when the observation was complete:
+   HttpServer bounds the life of a connection, so once a connection is SlowMs old the recorder abandons it right after that
+   exchange and logs end with open = -2 (not decided).
    A request the specification does not allow on a closed connection cannot be matched: Exchange is disabled.       *)
-EXTENDS HttpServerRules, IOUtils
+EXTENDS HttpServerRules, IOUtils, Integers
 
 T == ndJsonDeserialize(IOEnv.TRACE)
 VARIABLES l
@@ -24,6 +27,16 @@ Get(obs, name) == obs.headers[CHOOSE i \in 1..Len(obs.headers) : obs.headers[i].
 HeaderOK(obs, h) == /\ Has(obs, h.name)
                     /\ IF h.kind = "text" THEN Get(obs, h.name).v = h.v
                        ELSE SeqSet(Get(obs, h.name).l) = SeqSet(h.l) /\ Len(Get(obs, h.name).l) = Len(h.l)
+(* Wall time.  Every exchange-type event carries ms, the wall milliseconds the exchange took on the recording machine.  The
+   library ends exchanges by itself after fixed times (HttpServer drops a connection 10 s after accepting it and waits 5 s
+   for data; HttpMessage::readBody hands over a truncated body after 10 s without input): design decisions of asl that this
+   property does not forbid and that fire on an overloaded machine.  An event with ms >= SlowMs (far above a normal exchange
+   of a few ms, well below those limits) is therefore consumed without constraining what was observed; everything else is
+   checked exactly as before.  checks/C10.py bounds the number of slow events per recording (a server that does not answer
+   is still reported).                                                                                                    *)
+SlowMs == 4000
+Slow(e) == "ms" \in DOMAIN e /\ e.ms >= SlowMs
+
 Matches(obs, r, a) ==
     /\ obs.interim = a.interim
     /\ obs.code = a.code
@@ -40,8 +53,9 @@ Step ==
   /\ LET e == T[l] IN
      \/ /\ e.e = "conn" /\ cfg' = CfgOf(e.cfg) /\ open' = TRUE /\ hist' = <<>>
      \/ /\ e.e = "xchg" /\ Exchange(ReqOf(e.req))
-        /\ Matches(e.obs, ReqOf(e.req), Answer(cfg, ReqOf(e.req)))
-     \/ /\ e.e = "end" /\ e.open = (IF open THEN 1 ELSE 0) /\ UNCHANGED vars
+        /\ (Slow(e) \/ Matches(e.obs, ReqOf(e.req), Answer(cfg, ReqOf(e.req))))
+     \/ /\ e.e = "end" /\ UNCHANGED vars
+        /\ IF Slow(e) THEN e.open = -2 ELSE e.open = (IF open THEN 1 ELSE 0)
 
 TraceSpec == TInit /\ [][Step]_tvars
 TraceAccepted == TLCGet("stats").diameter - 1 = Len(T)
